@@ -937,3 +937,85 @@ pub fn p_vectors(per_group: usize) -> ProgSpace {
     let total = progs.len() as u64;
     ProgSpace { name: format!("PV({} programs from op-tests vectors)", progs.len()), total, get: Box::new(move |i| (tree::deser(&progs[i as usize]).unwrap().0, nil())) }
 }
+
+// ---------------------------------------------------------------------
+// operand-size limit space: arithmetic operators over operands just below / at / above 256, 1024, 2048 bytes
+pub fn p_limits(thorough: bool) -> ProgSpace {
+    let sizes: Vec<usize> = if thorough { vec![255, 256, 257, 1023, 1024, 1025, 2047, 2048, 2049] } else { vec![256, 257, 1024, 1025, 2048, 2049] };
+    let mut consts: Vec<Vec<u8>> = vec![vec![3], vec![0xfb], vec![0x00, 0x03]];
+    for s in &sizes {
+        consts.push(big_atom(*s));
+    }
+    let g1 = g1_gen();
+    let g2 = g2_gen();
+    // (opcode, arity, first-arg override)
+    let ops: Vec<(u8, usize, Option<Vec<u8>>)> = vec![(18, 2, None), (18, 3, None), (19, 2, None), (20, 2, None), (61, 2, None), (60, 3, None), (50, 2, Some(g1)), (54, 2, Some(g2)), (16, 2, None), (24, 2, None), (22, 2, None)];
+    let k = consts.len() as u64;
+    let mut offsets = vec![0u64];
+    for (_, ar, ov) in &ops {
+        let free = if ov.is_some() { ar - 1 } else { *ar };
+        offsets.push(offsets.last().unwrap() + k.pow(free as u32));
+    }
+    let total = *offsets.last().unwrap();
+    ProgSpace {
+        name: format!("LIMITS(operand sizes {sizes:?})"),
+        total,
+        get: Box::new(move |i| {
+            let mut oi = 0;
+            while offsets[oi + 1] <= i {
+                oi += 1;
+            }
+            let (op, ar, ov) = &ops[oi];
+            let mut r = i - offsets[oi];
+            let mut args = vec![];
+            if let Some(first) = ov {
+                args.push(quote(atom(first)));
+            }
+            while args.len() < *ar {
+                let mut c = consts[(r % k) as usize].clone();
+                r /= k;
+                // modpow exponents are kept <= 257 bytes (run time), shifts small
+                if *op == 60 && args.len() == 1 && c.len() > 257 {
+                    c.truncate(257);
+                }
+                if *op == 22 && args.len() == 1 {
+                    c.truncate(1);
+                }
+                args.push(quote(atom(&c)));
+            }
+            if *op == 60 {
+                // run-time guard: a long exponent only together with base and modulus of at most 257 bytes
+                let raw: Vec<Vec<u8>> = args.iter().map(|a| match a { T::P(_, v) => v.bytes().unwrap().to_vec(), _ => vec![] }).collect();
+                if raw[1].len() > 3 {
+                    args = raw.iter().map(|b| quote(atom(&b[..b.len().min(257)]))).collect();
+                }
+            }
+            (cons(atom(&[*op]), list(&args)), nil())
+        }),
+    }
+}
+
+/// P5 thinned for the expensive flag-lattice check: contexts {bare, after an allocation, two guards},
+/// declared costs {exact old, exact new, exact+1, nil, u64::MAX, non-canonical exact}, all extensions
+pub fn p5_thin() -> ProgSpace {
+    let full = p5_full();
+    let ctxs = [0usize, 2, 5];
+    let costs = [0usize, 1, 2, 6, 10, 13];
+    let ni = full.total / (GUARD_EXTS * GUARD_COSTS * GUARD_CTXS) as u64;
+    let total = ni * (GUARD_EXTS * costs.len() * ctxs.len()) as u64;
+    ProgSpace {
+        name: format!("P5thin({} inner programs x {GUARD_EXTS} extensions x {} declared costs x {} contexts)", ni, costs.len(), ctxs.len()),
+        total,
+        get: Box::new(move |i| {
+            let mut r = i;
+            let ctx = ctxs[(r % ctxs.len() as u64) as usize];
+            r /= ctxs.len() as u64;
+            let ci = costs[(r % costs.len() as u64) as usize];
+            r /= costs.len() as u64;
+            let ei = (r % GUARD_EXTS as u64) as usize;
+            r /= GUARD_EXTS as u64;
+            let idx = ((r as usize * GUARD_EXTS + ei) * GUARD_COSTS + ci) * GUARD_CTXS + ctx;
+            full.at(idx as u64)
+        }),
+    }
+}
